@@ -11,7 +11,7 @@ SEEDS_SQF = [b'private _a = [1, "x""y", {true}] select 0;', b"_x = .5e3 + $1F - 
              b'x = 1e5; y = .e5;', b'switch (a) do { case 1: { 2 }; default { 3 } };']
 SEEDS_CFG = [b'class A { v = 1; s = "x"; a[] = {1, {2, "y"}}; };', b"class B : A { a[] += {3}; delete v; class C; }; t = 'q';", b'class D { x = 1.5e3; y = -0x1F; z = abc def; /* c */ // d\n};']
 SEEDS_PP = [b'#define A(x,y) x##y #x\nA(1,2) "A(3)" // c\n', b'#ifdef A\nq\n#else\nr /* z */\n#endif\n#undef A\n__LINE__ __FILE__', b'#define B C\\\n D\n#define E(a) [a, B]\nE((1,2)) E("x,y")\n#ifndef B\n#endif',
-            b'#define A A\nA\n', b'#define A B\n#define B A\nA B\n', b'#define F(x) F(x)\nF(1)\n', b'#define G(x) x\nG(G(G(2)))\nG(\n', b'#pragma once\n#if 1\n#else x\n#endif y\n#define\n#undef\n#ifdef\n']
+            b'#define A A\nA\n', b'#define A B\n#define B A\nA B\n', b'#define F(x) F(x)\nF(1)\n', b'#define G(x) x\nG(G(G(2)))\nG(\n', b'#pragma once\n#if 1\n#else x\n#endif y\n#define\n#undef\n#ifdef\n', b'__EXEC(x = 3) __EVAL(x + 1) __EVAL([] select 5) __EVAL()\n']
 
 def sym_text(parts):
     """parts: list of bytes | ('sym', name, alphabet|None). returns (buf, n)"""
